@@ -91,6 +91,11 @@ Use(e) ==
   ELSE /\ seen' = seen \cup {own[e.q]}
        /\ own' = IF e.a = "meas" THEN [own EXCEPT ![e.q] = NONE] ELSE own
        /\ UNCHANGED <<fx, fz, verdict>>
+(* a pair of a rejected attempt is given back unused (the request is repeated): its state does not matter *)
+Discard(e) ==
+  IF own[e.q] < 0 THEN verdict' = "operation-on-no-qubit" /\ UNCHANGED <<own, fx, fz, seen>>
+  ELSE /\ seen' = seen \cup {own[e.q]} /\ own' = [own EXCEPT ![e.q] = NONE]
+       /\ fx' = [fx EXCEPT ![e.q] = 0] /\ fz' = [fz EXCEPT ![e.q] = 0] /\ UNCHANGED verdict
 End ==
   /\ verdict' =
        IF Case.err # "" \/ Case.fault THEN "not-judged" \* refused by the SDK, or a fault that is not about a correction: no request ran to its end (qubit management: C09)
@@ -107,6 +112,7 @@ FrameNext ==
             [] Ev.a = "pauli" -> PauliGate(Ev)
             [] Ev.a = "mov" -> Mov(Ev)
             [] Ev.a \in {"use", "meas"} -> Use(Ev)
+            [] Ev.a = "discard" -> Discard(Ev)
 
 (* measure directly: one case = one delivered Bell state, one basis, and for each of the four raw  *)
 (* outcome pairs (creator, receiver) what the two applications read after post-processing        *)
